@@ -50,13 +50,14 @@ def canon_key(x):
 class Sem:
     """semantics description shared by the reference and the real semantics object"""
 
-    def __init__(self, kind, rulenames, target=None, exc=None, named=()):
+    def __init__(self, kind, rulenames, target=None, exc=None, named=(), shapes=None):
         self.kind = kind            # identity | tagging | default_only | mixed | fail_on | raise_on
         self.rulenames = rulenames
         self.target = target        # (rule, canon_key) for predicate kinds
         self.exc = exc
         self.named = set(named)     # rules that get their own method in 'mixed'
         self.raised = None
+        self.shapes = shapes or {}   # rule -> 'A' (ast, *args, **kw) | 'B' (ast, p1, *rest, **kw) | 'C' (ast, p1, p2, **kw) | 'D' (ast)
 
     def result(self, rule, ast, params, kwparams, log, real):
         """common behaviour; `real` tells which side (for the exception classes)"""
@@ -88,9 +89,22 @@ class Sem:
         from tatsu.util import safe_name
 
         def make(rule):
-            def method(self_, ast, *args, **kwargs):
-                kwargs.pop('parseinfo', None)
-                return sem.result(rule, ast, args, kwargs, log, True)
+            shape = sem.shapes.get(rule, 'A')
+            if shape == 'B':
+                def method(self_, ast, p1, *rest, **kwargs):
+                    kwargs.pop('parseinfo', None)
+                    return sem.result(rule, ast, (p1, *rest), kwargs, log, True)
+            elif shape == 'C':
+                def method(self_, ast, p1, p2, **kwargs):
+                    kwargs.pop('parseinfo', None)
+                    return sem.result(rule, ast, (p1, p2), kwargs, log, True)
+            elif shape == 'D':
+                def method(self_, ast):
+                    return sem.result(rule, ast, (), {}, log, True)
+            else:
+                def method(self_, ast, *args, **kwargs):
+                    kwargs.pop('parseinfo', None)
+                    return sem.result(rule, ast, args, kwargs, log, True)
             method.__name__ = safe_name(rule)
             return method
         ns = {}
@@ -109,6 +123,8 @@ class Sem:
     def ref_actions(self, log):
         def actions(rule, value, params, kwparams):
             if self.has_method(rule):
+                if self.shapes.get(rule) == 'D':   # an action declared as (self, ast) cannot observe the parameters
+                    params, kwparams = (), {}
                 return self.result(rule, value, params, kwparams, log, False)
             if self.kind in ('default_only', 'mixed'):
                 return self.result('<default>', value, params, kwparams, log, False)
@@ -135,7 +151,7 @@ def rule_dicts(rules, ruleinfo):
 _n = [0]
 
 
-def check(rules, ruleinfo, start, text, semd, cache=None):
+def check(rules, ruleinfo, start, text, semd, cache=None, history=None):
     """semd: dict(kind, target, exc, named).  returns (detail|None, info)"""
     import tatsu
     rules = [(n, tup(x)) for n, x in rules]
@@ -165,7 +181,7 @@ def check(rules, ruleinfo, start, text, semd, cache=None):
         if cache is not None:
             cache.update(model=model, cls=cls)
     # reference
-    sem = Sem(semd['kind'], names, target, semd.get('exc'), semd.get('named', ()))
+    sem = Sem(semd['kind'], names, target, semd.get('exc'), semd.get('named', ()), semd.get('shapes'))
     rlog = []
     nomemo = {n for n in names if 'nomemo' in (ruleinfo.get(n, {}).get('decorators') or ())}
     ref = Ref(rd, text, actions=sem.ref_actions(rlog))
@@ -206,7 +222,16 @@ def check(rules, ruleinfo, start, text, semd, cache=None):
                 if side == 'model':
                     t = _model_parse(model, text, semobj)
                 else:
-                    t = _parse_gen(cls, text, semobj)
+                    if cache is not None:
+                        inst = cache.setdefault('instance', cls())   # one parser object reused across the inputs of a case (history)
+                    else:
+                        inst = cls()
+                        for ptext, psemd in (history or []):     # replay: re-create the history on a fresh instance
+                            plog = []
+                            psem = Sem(psemd['kind'], names, tuple(psemd['target']) if psemd.get('target') else None, psemd.get('exc'),
+                                       psemd.get('named', ()), psemd.get('shapes'))
+                            _parse_gen(inst, ptext, psem.make_object(plog))
+                    t = _parse_gen(inst, text, semobj)
         except CaseTimeout:
             info['timeout'] = True
             return None, info
@@ -254,10 +279,10 @@ def check(rules, ruleinfo, start, text, semd, cache=None):
     return None, info
 
 
-def _parse_gen(cls, text, semobj):
+def _parse_gen(inst, text, semobj):
     from tatsu.exceptions import FailedParse, ParseException
     try:
-        a = cls().parse(text, start='VF_WRAP', semantics=semobj)
+        a = inst.parse(text, start='VF_WRAP', semantics=semobj)
     except FailedParse as e:
         return ('fail', type(e).__name__, e.pos)
     except ParseException as e:
@@ -322,6 +347,7 @@ def run_shard(sh, n):
         reset_tatsu_state()
         rules, ruleinfo, start = make_case(rnd)
         cache = {}
+        history = []
         gtext = grammar_text(rule_dicts(rules, ruleinfo))
         names = [nm for nm, _ in rules]
         try:
@@ -330,7 +356,11 @@ def run_shard(sh, n):
                 plain = Ref(rule_dicts(rules, ruleinfo), text)
                 plain.parse(start)
                 kind = rnd.choice(['identity', 'tagging', 'tagging', 'default_only', 'mixed', 'fail_on', 'fail_on', 'raise_on', 'raise_on'])
-                semd = dict(kind=kind, target=None, exc=None, named=[nm for nm in names if rnd.random() < 0.5])
+                semd = dict(kind=kind, target=None, exc=None, named=[nm for nm in names if rnd.random() < 0.5], shapes={})
+                for nm in names:
+                    np_ = len(ruleinfo.get(nm, {}).get('params') or ())
+                    opts = ['A', 'A', 'D'] + (['B'] if np_ >= 1 else []) + (['C'] if np_ == 2 else [])
+                    semd['shapes'][nm] = rnd.choice(opts)
                 if kind in ('fail_on', 'raise_on'):
                     cands = [(nm, canon_key(v)) for nm, _, _, v in plain.trace]
                     if not cands:
@@ -340,6 +370,8 @@ def run_shard(sh, n):
                         if kind == 'raise_on':
                             semd['exc'] = rnd.choice(sorted(EXC))
                 d, info = check(rules, ruleinfo, start, text, semd, cache)
+                hist = list(history)
+                history.append((text, semd))
                 if 'model' not in cache:
                     if d is not None:
                         sh.fail(d['bucket'], dict(rules=rules, ruleinfo=ruleinfo, start=start, input=text, sem=semd), d)
@@ -360,7 +392,7 @@ def run_shard(sh, n):
                     sh.flag(f)
                 sh.case((gtext, text, canon_key(semd)), nt, cls, sample=dict(grammar=gtext, input=text, semantics=semd))
                 if d is not None:
-                    sh.fail(d['bucket'], dict(rules=rules, ruleinfo=ruleinfo, start=start, input=text, sem=semd), d)
+                    sh.fail(d['bucket'], dict(rules=rules, ruleinfo=ruleinfo, start=start, input=text, sem=semd, history=hist), d)
         finally:
             if cache.get('mod') is not None:
                 tu.unload(cache['mod'])
@@ -368,7 +400,7 @@ def run_shard(sh, n):
 
 
 def replay(case):
-    d, _ = check(case['rules'], case.get('ruleinfo') or {}, case['start'], case['input'], case['sem'])
+    d, _ = check(case['rules'], case.get('ruleinfo') or {}, case['start'], case['input'], case['sem'], history=case.get('history'))
     return d
 
 
@@ -378,6 +410,9 @@ def shrink_candidates(case):
     for i in range(len(text)):
         yield dict(case, input=text[:i] + text[i + 1:])
     ri = case.get('ruleinfo') or {}
+    hist = case.get('history') or []
+    for i in range(len(hist)):
+        yield dict(case, history=hist[:i] + hist[i + 1:])
     for n in list(ri):
         yield dict(case, ruleinfo={k: v for k, v in ri.items() if k != n})
     for r2 in shrink_rules(rules):
